@@ -673,13 +673,20 @@ impl InvalidLiquidToken<'_> {
             None => invalid_token_span.end_pos(),
         };
 
+        let invalid_text = invalid_token_position.span(&end_position).as_str();
         let mut text = String::from(&invalid_token_position.line_of()[..offset_c]);
-        text.push_str(invalid_token_position.span(&end_position).as_str());
+        text.push_str(invalid_text);
 
         // Reparses from the line where invalid liquid started, in order
         // to raise the error.
         let mut error = match LiquidParser::parse(Rule::LiquidFile, &text) {
-            Ok(_) => panic!("`LiquidParser::parse` should fail in InvalidLiquidTokens."),
+            // `offset_c` is a character column used as a byte offset: with multi-byte text
+            // on the line the prefix is cut short, which can make `text` valid.  The text
+            // starting at the invalid token itself never is.
+            Ok(_) => match LiquidParser::parse(Rule::LiquidFile, invalid_text) {
+                Ok(_) => return Err(Error::with_msg("Invalid liquid")),
+                Err(error) => error,
+            },
             Err(error) => error,
         };
 
